@@ -2776,7 +2776,15 @@ impl<'de, 'e> de::Deserializer<'de> for YamlDeserializer<'de, 'e> {
                         location: variant_location,
                     },
                 )?;
-                Ok((v, VA { ev, cfg, map_mode }))
+                Ok((
+                    v,
+                    VA {
+                        ev,
+                        cfg,
+                        map_mode,
+                        variant_location,
+                    },
+                ))
             }
         }
 
@@ -2784,6 +2792,7 @@ impl<'de, 'e> de::Deserializer<'de> for YamlDeserializer<'de, 'e> {
             ev: &'e mut dyn Events<'de>,
             cfg: Cfg,
             map_mode: bool,
+            variant_location: Location,
         }
 
         impl<'de, 'e> VA<'de, 'e> {
@@ -2796,6 +2805,20 @@ impl<'de, 'e> de::Deserializer<'de> for YamlDeserializer<'de, 'e> {
                     }),
                     None => Err(Error::eof().with_location(self.ev.last_location())),
                 }
+            }
+
+            /// A bare `Variant` scalar has no payload node of its own: a non-unit variant
+            /// sees an empty (null) payload, never the node that follows it in the
+            /// enclosing container.
+            fn bare_variant_payload(&self) -> ReplayEvents<'de> {
+                ReplayEvents::new(vec![Ev::Scalar {
+                    value: Cow::Borrowed(""),
+                    tag: SfTag::None,
+                    raw_tag: None,
+                    style: ScalarStyle::Plain,
+                    anchor: 0,
+                    location: self.variant_location,
+                }])
             }
         }
 
@@ -2831,6 +2854,10 @@ impl<'de, 'e> de::Deserializer<'de> for YamlDeserializer<'de, 'e> {
             where
                 T: de::DeserializeSeed<'de>,
             {
+                if !self.map_mode {
+                    let mut payload = self.bare_variant_payload();
+                    return seed.deserialize(YamlDeserializer::new(&mut payload, self.cfg));
+                }
                 // Get locations for error reporting before deserializing.
                 let defined_location = self
                     .ev
@@ -2855,6 +2882,11 @@ impl<'de, 'e> de::Deserializer<'de> for YamlDeserializer<'de, 'e> {
             where
                 Vv: Visitor<'de>,
             {
+                if !self.map_mode {
+                    let mut payload = self.bare_variant_payload();
+                    return YamlDeserializer::new(&mut payload, self.cfg)
+                        .deserialize_tuple(len, visitor);
+                }
                 let result =
                     YamlDeserializer::new(self.ev, self.cfg).deserialize_tuple(len, visitor)?;
                 if self.map_mode {
@@ -2872,6 +2904,11 @@ impl<'de, 'e> de::Deserializer<'de> for YamlDeserializer<'de, 'e> {
             where
                 Vv: Visitor<'de>,
             {
+                if !self.map_mode {
+                    let mut payload = self.bare_variant_payload();
+                    return YamlDeserializer::new(&mut payload, self.cfg)
+                        .deserialize_struct("", fields, visitor);
+                }
                 let result = YamlDeserializer::new(self.ev, self.cfg)
                     .deserialize_struct("", fields, visitor)?;
                 if self.map_mode {
